@@ -252,7 +252,12 @@ impl World {
             props.push(("stereo".to_string(), AV::Bool(ctx.ch.chance("op.arg.metab", 1, 2))));
         }
         if mask >> 10 & 1 == 1 {
-            props.push(("encoder".to_string(), AV::s("obs-studio")));
+            let enc = match ctx.ch.weighted("op.arg.enck", &[4, 1, 2]) {
+                0 => "obs-studio".to_string(),
+                1 => String::new(),
+                _ => crate::worlds::hostile::long_mixed_string(ctx),
+            };
+            props.push(("encoder".to_string(), AV::Str(enc)));
         }
         if mask >> 11 & 1 == 1 {
             props.push(("unknownfield".to_string(), AV::Num(1.0)));
@@ -377,7 +382,18 @@ impl World {
             5 | 6 => {
                 let sid = self.pick_sid(ctx);
                 let on = if ctx.ch.chance("op.arg.on0", 1, 3) { 0 } else { sid };
-                (msg::command(on, ts, if kind == 5 { "closeStream" } else { "deleteStream" }, 0.0, AV::Null, vec![AV::Num(sid as f64)]), 3)
+                // the argument is an AMF0 number: also values that are congruent to a live id
+                // modulo 2^32 (or far negative) -- they name no stream at all
+                let arg = match ctx.ch.weighted("op.arg.sidargk", &[12, 1, 1, 1]) {
+                    0 => sid as f64,
+                    1 => {
+                        ctx.probe("e.stream_arg_congruent_mod_2^32");
+                        sid as f64 + 4294967296.0 * (1 + ctx.ch.draw("op.arg.sidn", 3)) as f64
+                    }
+                    2 => sid as f64 - 4294967296.0,
+                    _ => *ctx.ch.pick("op.arg.sidodd", &[4294967296.0f64, 1e20, -1.0, f64::NAN, f64::INFINITY]),
+                };
+                (msg::command(on, ts, if kind == 5 { "closeStream" } else { "deleteStream" }, 0.0, AV::Null, vec![AV::Num(arg)]), 3)
             }
             7 => {
                 let sid = self.pick_sid(ctx);
